@@ -209,7 +209,7 @@ def judgeDiff (i : Json) (g : Graph) (ops obs : List Json) (relaunched : List Ke
     -- a task that never ran because it is downstream of a recorded cause, and still sits in the final pool, holds
     -- back every later cycle point through the runahead limit
     let blockedBy (d : List Key) : Option Int :=
-      minOf ((lastPool.map keyOf).filter fun k => d.contains k && !li.contains k).map (·.1)
+      minOf (((lastPool.map keyOf).filter fun k => d.contains k && !li.contains k).map (·.1))
     let late (d : List Key) (k : Key) : Bool := match blockedBy d with | some p => k.1 ≥ p | none => false
     let d1 : List Fail :=
       (onlyU.map fun k =>
